@@ -235,7 +235,7 @@ def _sp(E, st, p, off, v): E.store(st, p.add(off), 8, v)
 def rb_insert(E, st, a):
     left, x, par, hdr = a
     left = E.use(st, left, 'rb insert side')
-    if not is_c(left): raise Unsupported("symbolic rb-tree insert side")
+    if not is_c(left): left = 1 if E.branch(st, bv(left, left.size()) != 0) else 0
     hs = set(st.x.get('rb_hdrs', ())); hs.add((hdr.obj, hdr.off)); st.x['rb_hdrs'] = frozenset(hs)
     _sp(E, st, x, 8, par); _sp(E, st, x, 16, NULL); _sp(E, st, x, 24, NULL); E.store(st, x, 4, 0)
     if left:
@@ -288,6 +288,7 @@ def dyn_cast(E, st, a):
     if p.obj == 0: return NULL
     vptr = E.use(st, E.load(st, p, 8, True), 'vptr in dynamic_cast')
     ti = E.load(st, Ptr(vptr.obj, vptr.off - 8), 8, True)
+    if (is_c(ti) and ti == 0) or (isinstance(ti, Ptr) and ti.obj == 0): return NULL      # a modelled stream object without RTTI: not an instance of the target
     return p if E.ti_derives(st, ti, dstti) else NULL
 def guard_acquire(E, st, a):
     b = E.load(st, a[0], 1)
